@@ -681,8 +681,58 @@ def r7_failed_create_not_published(repo=None, rid="C02.R7"):
     return r
 
 
+def r8_paths_fit_their_buffers(repo=None):
+    """R1 decides what the paths given to H5Fcreate / rename / remove are made of; they are assembled with strcpy / strcat /
+    snprintf in fixed buffers of BIG_HDF5_STR bytes from the channel directory, the sub-directory name and the file name.  The only
+    part of unbounded length is the directory the caller gives.  If it does not fit, the name that is created and later renamed
+    is not the tmp. name R1 reasons about (a truncated relative name; the final rf@ file then holds a dataset under a garbage
+    name).  So the constructor refuses a directory whose length plus the fixed parts exceeds the buffer: a condition over
+    strlen(directory) and BIG_HDF5_STR whose true side leads to `return NULL`, before the directory is stored."""
+    r = Rule("C02.R8", "the caller's directory name is checked against the size of the path buffers before it is used")
+    tu = cfront.lib(repo)
+    fn = tu.fn("digital_rf_create_write_hdf5")
+    g = _cfg.build_c(fn)
+    import re as _re
+    checks = []
+    for n in g.nodes:
+        if n.kind != "cond" or n.ast is None:
+            continue
+        e = n.ast.strip()
+        if e.kind == "BinaryOperator" and e.opcode in ("<", ">", "<=", ">="):
+            sides = [e.children[0].nsrc, e.children[1].nsrc]
+            if any(_re.search(r"strlen\s*\(\s*directory\s*\)", x) for x in sides) and any(
+                    ("BIG_HDF5_STR" in x or "sizeof" in x or (c_.intval() or 0) >= 256) and "strlen" not in x
+                    for x, c_ in zip(sides, e.children)):
+                checks.append(n)
+    stores = [n for n in g.nodes if n.ast is not None and n.kind in ("stmt", "cond") and any(
+        path == clib.OBJ + "->directory" and not (rhs is not None and (rhs.strip(casts=True).intval() == 0 or rhs.nsrc.strip() == "NULL"))
+        for path, node, rhs, kind in clib.stores(n.ast))]
+    if not stores:
+        raise AnalysisError("%s: store of the directory field not found" % fn.name)
+    good = []
+    for n in checks:
+        for lab in ("T", "F"):
+            side = g.reach([b for b, l in g.succ[n.id] if l == lab])
+            null_ret = [x for x in g.nodes if x.kind == "return" and x.id in side and x.ast.children and (
+                x.ast.children[0].intval() == 0 or "NULL" in x.ast.nsrc)]
+            if null_ret and not any(s_.id in g.reach([b for b, l in g.succ[n.id] if l == lab], avoid=[x.id for x in null_ret]) for s_ in stores[:1]):
+                good.append(n)
+                break
+    dominated = [n for n in good if all(s_.id not in g.reach([g.entry.id], avoid=[n.id]) for s_ in stores)]
+    if dominated:
+        r.ok("%s:%s %s `%s`" % (LIB, dominated[0].line, fn.name, dominated[0].label[:70]), "a directory name that does not fit the path "
+             "buffers is refused before it is stored")
+    else:
+        r.violation(LIB, fn.name, "no length check of `directory` against BIG_HDF5_STR before it is stored",
+                    "the paths of data files are assembled with strcpy / strcat in buffers of BIG_HDF5_STR bytes; a channel directory of "
+                    "more than about 968 characters overflows them: the in-progress file is created under a truncated name, renamed to "
+                    "a final rf@ name with its dataset under a garbage name, and the process crashes", line=fn.line)
+    r.guard(1)
+    return r
+
+
 def rules(repo=None):
-    return [lambda: r1_tmp_provenance(repo), lambda: r2_publish_after_close(repo),
+    return [lambda: r8_paths_fit_their_buffers(repo), lambda: r1_tmp_provenance(repo), lambda: r2_publish_after_close(repo),
             lambda: r3_no_writer_of_final(repo), lambda: r4_staged_creation(repo),
             lambda: r5_readers_ignore_tmp(repo), lambda: r6_identity_stable_until_published(repo),
             lambda: r7_failed_create_not_published(repo)]
